@@ -3,6 +3,7 @@ package harness
 import (
 	"context"
 	"fmt"
+	"net"
 	"os"
 	"regexp"
 	"sort"
@@ -13,6 +14,7 @@ import (
 	"time"
 
 	"github.com/lightninglabs/lightning-node-connect/gbn"
+	"github.com/lightninglabs/lightning-node-connect/mailbox"
 )
 
 // C18: concurrent use. The scenarios run in a child process built with -race
@@ -137,14 +139,134 @@ func raceScenario(t *testing.T, variant int) {
 	})
 }
 
+// raceScenarioMailbox: the mailbox-level objects under concurrent use (real time, child process with -race).
+//
+//	100: deadline setters of a ClientConn and a ServerConn from several goroutines while data flows
+//	101: the TCP noise listener closed from two goroutines at once (many listeners: the window is narrow)
+//	102: Server.Accept against Server.Close (as grpc.Server.Serve / Stop), closes at staggered moments
+func raceScenarioMailbox(t *testing.T, variant int) {
+	r := newRng(uint64(variant) + 77)
+	switch variant {
+	case 100:
+		c, s, cleanup, _, err := kitPairRelay(r)
+		if err != nil {
+			fmt.Println("RACE-SCENARIO handshake failed:", err)
+			return
+		}
+		var wg sync.WaitGroup
+		stop := make(chan struct{})
+		for _, conn := range []net.Conn{c, s} {
+			conn := conn
+			for k := 0; k < 3; k++ {
+				wg.Add(1)
+				go func(k int) {
+					defer wg.Done()
+					for i := 0; i < 300; i++ {
+						select {
+						case <-stop:
+							return
+						default:
+						}
+						switch k {
+						case 0:
+							_ = conn.SetReadDeadline(time.Now().Add(time.Hour))
+						case 1:
+							_ = conn.SetDeadline(time.Time{})
+						default:
+							_ = conn.SetWriteDeadline(time.Now().Add(time.Hour))
+						}
+					}
+				}(k)
+			}
+		}
+		wg.Add(1)
+		go func() {
+			defer wg.Done()
+			buf := make([]byte, 64)
+			for i := 0; i < 5; i++ {
+				if _, err := c.Write([]byte("ping")); err != nil {
+					return
+				}
+				if _, err := s.Read(buf); err != nil {
+					return
+				}
+			}
+		}()
+		wg.Wait()
+		close(stop)
+		cleanup()
+	case 101:
+		for i := 0; i < 300; i++ {
+			l, err := mailbox.NewListener(r.bytes(14), keyECDH(privFromRng(r)), "127.0.0.1:0", nil)
+			if err != nil {
+				fmt.Println("RACE-SCENARIO listen failed:", err)
+				return
+			}
+			var wg sync.WaitGroup
+			start := make(chan struct{})
+			for k := 0; k < 2; k++ {
+				wg.Add(1)
+				go func() { defer wg.Done(); <-start; _ = l.Close() }()
+			}
+			close(start)
+			wg.Wait()
+		}
+	case 102:
+		for i := 0; i < 6; i++ {
+			relay := newFakeRelay()
+			entropy := r.bytes(14)
+			cdS := mailbox.NewConnData(keyECDH(privFromRng(r)), nil, entropy, []byte("macaroon"), nil, nil)
+			cdC := mailbox.NewConnData(keyECDH(privFromRng(r)), nil, entropy, nil, nil, nil)
+			srv, err := mailbox.VerifNewServer("relay", cdS, relay, func(mailbox.ServerStatus) {})
+			if err != nil {
+				fmt.Println("RACE-SCENARIO setup failed:", err)
+				return
+			}
+			ctx, cancel := context.WithCancel(context.Background())
+			cli, _ := mailbox.VerifNewClient(ctx, "relay", cdC, relay)
+			var wg sync.WaitGroup
+			wg.Add(2)
+			go func() {
+				defer wg.Done()
+				for {
+					c, err := srv.Accept()
+					if err != nil {
+						return
+					}
+					_ = srv.Addr()
+					_ = c.Close()
+				}
+			}()
+			go func() {
+				defer wg.Done()
+				if cli != nil && i%2 == 0 {
+					if c, err := cli.Dial(ctx, ""); err == nil {
+						_ = c.Close()
+					}
+				}
+			}()
+			time.Sleep(time.Duration(50+i*70) * time.Millisecond)
+			_ = srv.Addr()
+			_ = srv.Close()
+			cancel()
+			wg.Wait()
+		}
+	}
+	fmt.Println("RACE-SCENARIO done")
+}
+
 func TestChildRace(t *testing.T) {
 	if os.Getenv("VERIF_CHILD") == "" {
 		t.Skip("child only")
 	}
-	raceScenario(t, int(envInt("VERIF_VARIANT", 0)))
+	if v := int(envInt("VERIF_VARIANT", 0)); v >= 100 {
+		raceScenarioMailbox(t, v)
+	} else {
+		raceScenario(t, v)
+	}
 }
 
-var raceFrame = regexp.MustCompile(`lightning-node-connect/gbn\.\(?\*?([A-Za-z]+)\)?\.([A-Za-z0-9_]+)`)
+var raceFrame = regexp.MustCompile(`lightning-node-connect/(?:gbn|mailbox)\.\(?\*?([A-Za-z]+)\)?\.([A-Za-z0-9_]+)`)
 
 func TestGenC18(t *testing.T) {
 	o := newOut(t, "c18_impl.txt")
@@ -166,19 +288,25 @@ func TestGenC18(t *testing.T) {
 		exit int
 		out  string
 	}
-	results := make([]res, n)
-	var wg sync.WaitGroup
+	variants := make([]int, 0, n+3)
 	for v := 0; v < n; v++ {
-		v := v
+		variants = append(variants, v)
+	}
+	variants = append(variants, 100, 101, 102) // the mailbox-level objects
+	results := make([]res, len(variants))
+	var wg sync.WaitGroup
+	for i, v := range variants {
+		i, v := i, v
 		wg.Add(1)
 		go func() {
 			defer wg.Done()
 			e, outp := runChild("TestChildRace", fmt.Sprintf("VERIF_VARIANT=%d", v), "GORACE=halt_on_error=0")
-			results[v] = res{e, outp}
+			results[i] = res{e, outp}
 		}()
 	}
 	wg.Wait()
-	for v, r := range results {
+	for i, r := range results {
+		v := variants[i]
 		races := strings.Count(r.out, "WARNING: DATA RACE")
 		q.stat("race_children", 1)
 		q.stat("distinct_nontrivial", 1)
